@@ -60,6 +60,7 @@ func vfChainSource(n, width int, x int64) (string, int64) {
 func VerifC09(args []string) {
 	kind, param, opts, evMode := args[0], args[1], args[2], args[3]
 	x := vfInt64("i0")
+	tickVal := vfInt64("tick")
 	var src string
 	var want Value
 	mustReject, mustAccept := false, false
@@ -94,6 +95,26 @@ func VerifC09(args []string) {
 			mustAccept = n <= limit
 			mustReject = n > limit
 		}
+	case "nullary":
+		// (+ i0 … i0 (tick)): n operands, the last one an operand-less operator call
+		n, _ := strconv.Atoi(param)
+		src = "(+" + strings.Repeat(" i0", n-1) + " (tick))"
+		acc := x
+		for j := 1; j < n-1; j++ {
+			acc += x
+		}
+		want = acc + tickVal
+		mustAccept = true
+	case "nullary-nested":
+		// right-nested with the operand-less call at the deepest point
+		d, _ := strconv.Atoi(param)
+		src = strings.Repeat("(+ i0 ", d-1) + "(tick)" + strings.Repeat(")", d-1)
+		acc := tickVal
+		for j := 0; j < d-1; j++ {
+			acc = x + acc
+		}
+		want = acc
+		mustAccept = true
 	case "stack":
 		d, _ := strconv.Atoi(param)
 		src = strings.Repeat("(+ i0 ", d) + "i0" + strings.Repeat(")", d)
@@ -106,6 +127,7 @@ func VerifC09(args []string) {
 	}
 	conf := NewConfig()
 	conf.VariableKeyMap["i0"] = 1
+	conf.OperatorMap["tick"] = func(_ *Ctx, ps []Value) (Value, error) { return tickVal, nil }
 	for i, o := range optimizations {
 		conf.CompileOptions[o] = opts[i] == '1'
 	}
